@@ -62,7 +62,7 @@ def _desc(draw, tier):
     npart = draw(st.one_of(st.none(), st.none(), st.integers(1, n1d), st.sampled_from([n1d // 2, n1d // 3, n1d // 4, (n1d - 1) // 3, 2, 4]).map(lambda v: max(v, 1))))
     dtype = draw(st.sampled_from(['f4', 'f4', 'f8']))
     box = draw(st.sampled_from([1.0, 123.0, 2000.0, 64.0, 7.3]))
-    offk = draw(st.sampled_from(['0', 'half', 'rand', 'cells']))
+    offk = draw(st.sampled_from(['0', 'half', 'rand', 'cells', 'cells']))
     # offset in cells along coord: 0, half a cell, a random sub-cell value, or several cells (the parameter is a plain shift of the deposit; any value below the box is handled by the wrap)
     offfrac = {'0': 0.0, 'half': 0.5, 'rand': draw(st.floats(0.0, 0.999)), 'cells': draw(st.integers(1, max(1, n1d // 2))) + draw(st.sampled_from([0.0, 0.5, 0.25]))}[offk]
     osizes = [draw(st.sampled_from([other, other, 8, 32, 96])), draw(st.sampled_from([other, other, other, 48]))]
